@@ -12,8 +12,9 @@
                  fmt_ok f g       = graph_wf g for GraphML;  graph_shape g && no structural JSON names for JSON *)
 From Coq Require Import String.
 From Coq Require Import List ZArith NArith Bool.
-From FIM Require Import Base.Str Model.Serial1Text Model.Serial1Graph.
+From FIM Require Import Base.Str Base.Json Model.Serial1Text Model.Serial1Graph Model.Serial1Json Model.Serial1Corr Model.Serial1Disjoint.
 From FIM Require Import Proofs.Serial1Text Proofs.Serial1Doc Proofs.Serial1Store Proofs.Serial1Main Proofs.Serial1Inv.
+From FIM Require Import Proofs.Serial1JsonText Proofs.Serial1DisjRT.
 Import ListNotations.
 
 (* ================= text layer ================= *)
@@ -111,6 +112,81 @@ Theorem C01_validates_after_import_direct : forall jsonok f ep s gid g,
 Proof. exact validates_after_import_direct. Qed.
 Print Assumptions C01_validates_after_import_direct.
 
+(* ================= node-link JSON at the text level ================= *)
+(* json.dumps(node_link_data(g)) parsed by json.loads and read by node_link_graph gives g back: the value-level
+   round trip composed with jparse (jprint v) = Some v of Base/JsonRT.v.  [tbl] is the table of property-name
+   texts; strings must be free of lone surrogates (str_ok), dict keys distinct *)
+Theorem C01_json_text_roundtrip : forall tbl g,
+  names_ok tbl = true -> graph_json_ok g = true -> graph_json_text_ok tbl g = true ->
+  exists s, json_text tbl g = Some s /\ json_read_text tbl s = Some g.
+Proof. exact json_text_roundtrip. Qed.
+Print Assumptions C01_json_text_roundtrip.
+
+(* ================= the second store flavour (one nx.Graph per graph id) ================= *)
+(* dget s gid = the graph filed under gid (empty graph if none); d_copy_of / d_copy_direct = the copy with ids from 1 *)
+(* re-stamping entry points onto a graph id that holds no nodes: the copy is filed, no other graph changes *)
+Theorem C01_disjoint_restamp_free : forall f ep s gid gid' g,
+  is_direct ep = false -> dget s gid = g -> g_nodes g <> [] ->
+  fmt_ok f g = true -> graph_ids_ok g = true -> nonempty (dget s gid') = false ->
+  exists t s',
+    d_serialize_graph s gid f = Some (Some t)
+    /\ d_import_via ep s t gid' = (s', ROk gid')
+    /\ dget s' gid' = d_copy_of gid' g
+    /\ content (dget s' gid') = content (restamp gid' g)
+    /\ (forall other, other <> gid' -> dget s' other = dget s other).
+Proof. exact d_roundtrip_restamp_free. Qed.
+Print Assumptions C01_disjoint_restamp_free.
+
+(* ... onto a graph id that already holds nodes (the source id itself included): the call returns normally and the
+   store is exactly as before - nothing is imported (add_graph "skipping", after fix 74c0984 without an exception) *)
+Theorem C01_disjoint_restamp_in_use_is_skipped : forall f ep s gid gid' g,
+  is_direct ep = false -> dget s gid = g -> g_nodes g <> [] -> fmt_ok f g = true ->
+  nonempty (dget s gid') = true ->
+  exists t, d_serialize_graph s gid f = Some (Some t) /\ d_import_via ep s t gid' = (s, ROk gid').
+Proof. exact d_roundtrip_restamp_busy. Qed.
+Print Assumptions C01_disjoint_restamp_in_use_is_skipped.
+
+(* direct entry points: the id is read from the text; whatever that id held - here the source itself - is REPLACED *)
+Theorem C01_disjoint_direct_replaces : forall f ep s gid g,
+  is_direct ep = true -> dget s gid = g -> g_nodes g <> [] -> fmt_ok f g = true ->
+  (forall n, In n (g_nodes g) -> has_gid gid n = true) ->
+  forall gid', exists t s',
+    d_serialize_graph s gid f = Some (Some t)
+    /\ d_import_via ep s t gid' = (s', ROk gid)
+    /\ dget s' gid = d_copy_direct g
+    /\ content (dget s' gid) = content g
+    /\ (forall other, other <> gid -> dget s' other = dget s other).
+Proof. exact d_roundtrip_direct. Qed.
+Print Assumptions C01_disjoint_direct_replaces.
+
+(* ... also when the text names another graph id than the one it was filed under: that other graph is replaced *)
+Theorem C01_disjoint_direct_replaces_named_graph : forall f ep s src gid g,
+  is_direct ep = true -> dget s src = g -> g_nodes g <> [] -> fmt_ok f g = true ->
+  (forall n, In n (g_nodes g) -> has_gid gid n = true) ->
+  forall gid', exists t s',
+    d_serialize_graph s src f = Some (Some t)
+    /\ d_import_via ep s t gid' = (s', ROk gid)
+    /\ dget s' gid = d_copy_direct g
+    /\ (forall other, other <> gid -> dget s' other = dget s other).
+Proof. exact d_direct_replaces. Qed.
+Print Assumptions C01_disjoint_direct_replaces_named_graph.
+
+Theorem C01_disjoint_reserialize_restamp : forall f gid' g, fmt_ok f g = true -> gid_ok f gid' = true ->
+  exists t2, serialize f (d_copy_of gid' g) = Some t2 /\ text_graph t2 = Some (d_copy_of gid' g).
+Proof. exact d_reserialize_restamp. Qed.
+Print Assumptions C01_disjoint_reserialize_restamp.
+
+Theorem C01_disjoint_reserialize_direct : forall f g, fmt_ok f g = true ->
+  exists t2, serialize f (d_copy_direct g) = Some t2 /\ text_graph t2 = Some (d_copy_direct g).
+Proof. exact d_reserialize_direct. Qed.
+Print Assumptions C01_disjoint_reserialize_direct.
+
+(* an id that holds nothing serializes as the empty graph, and no entry point accepts that text *)
+Theorem C01_disjoint_empty_text_refused : forall f ep s gid gid', dget s gid = empty_graph ->
+  exists t, d_serialize_graph s gid f = Some (Some t) /\ d_import_via ep s t gid' = (s, RErrImport).
+Proof. exact d_empty_text_refused. Qed.
+Print Assumptions C01_disjoint_empty_text_refused.
+
 (* ================= the store hypothesis holds in every reachable store ================= *)
 (* store_wf (internal ids distinct and below the counter, edges between stored nodes) is kept by every load ... *)
 Theorem C01_store_invariant_loads : forall ops,
@@ -169,3 +245,26 @@ Example C01_illegal_text_refused :
   serialize_graphml {| g_nodes := [(1%N, [(P_NodeID, PStr (S"n")); (P_Class, PStr (S"C")); (10%N, PStr [97; 11; 98]%N)])];
                        g_edges := [] |} = None.
 Proof. vm_compute. reflexivity. Qed.
+
+(* JSON text: the example graph's text, computed, starts with {"directed": false and reads back as the graph *)
+Example C01_json_text_example :
+  names_ok ex_names = true /\ graph_json_text_ok ex_names ex_graph = true
+  /\ match json_text ex_names ex_graph with
+     | Some s => firstn 19 s = S"{""directed"": false," /\ json_read_text ex_names s = Some ex_graph
+     | None => False
+     end.
+Proof. vm_compute. repeat split. Qed.
+
+(* disjoint store: both graphs of the example filed; a re-stamping import onto the id in use changes nothing,
+   onto a free id files the copy, a direct import replaces the source by its copy *)
+Example C01_disjoint_example :
+  let s := [(S"other", ex_other); (S"g", ex_graph)] in
+  match d_serialize_graph s (S"g") GraphMLFmt with
+  | Some (Some t) =>
+      d_import_via EString s t (S"other") = (s, ROk (S"other"))
+      /\ content (dget (fst (d_import_via EFile s t (S"new"))) (S"new")) = content (restamp (S"new") ex_graph)
+      /\ dget (fst (d_import_via EStringDirect s t (S"x"))) (S"g") = d_copy_direct ex_graph
+      /\ dget (fst (d_import_via EStringDirect s t (S"x"))) (S"other") = ex_other
+  | _ => False
+  end.
+Proof. vm_compute. repeat split. Qed.
